@@ -121,8 +121,12 @@ def centroid_1dg(data, error=None, mask=None):
         if wscale > 0 and np.isfinite(wscale):
             weights_i = weights_i / wscale
 
-        params_init = _gaussian1d_moments(data_i)
-        g_init = Gaussian1D(*params_init)
+        amplitude, mean, stddev = _gaussian1d_moments(data_i)
+        # for noisy data the moment estimate of the width can collapse
+        # (positive and negative wings cancel); a starting width well
+        # below the pixel sampling can trap the fit in a one-pixel spike
+        stddev = max(stddev, 1.0)
+        g_init = Gaussian1D(amplitude, mean, stddev)
         x = np.arange(data_i.size)
         g_fit = fitter(g_init, x, data_i, weights=weights_i)
         centroid.append(g_fit.mean.value)
